@@ -812,6 +812,13 @@ pub fn run(c: &mut Ctx) {
                             fl.hit(c, "date-time difference is not the extended-line distance plus the cross terms of leap operands on another date",
                                 &format!("tm.dtdiff {day} {ts} {frac} {day2} {sb} {fb} -> {} ns, line distance {}, cross terms {ce}", td_ns(x), spec_dt_line_diff(pa, pb)));
                         }
+                        // the derived order is the order on that line (theorem datetime_order_is_line_order)
+                        if guard(|| dt.cmp(&dt2) as i32) != Ok(spec_dt_line_diff(pa, pb).signum() as i32) {
+                            fl.hit(c, "derived order of date-times disagrees with the extended line", &format!("tm.dtdiff {day} {ts} {frac} {day2} {sb} {fb}"));
+                        }
+                        if td_ns(x).signum() != spec_dt_line_diff(pa, pb).signum() {
+                            tl.add("observation:sign of a date-time difference disagrees with the derived order (leap-second operand on another date)");
+                        }
                         tl.add(if ce != 0 {
                             "observation:date-time difference differs from the extended-line distance by one second (leap-second operand on another date)"
                         } else {
